@@ -91,25 +91,27 @@ Definition store_of (ev : event) : option (Z * const) :=
 Definition same_store (e e' : event) : bool :=
   opt_eqb (fun x y : Z * const => (fst x =? fst y) && const_eqb (snd x) (snd y)) (store_of e) (store_of e').
 
-Fixpoint lockstep (tr tr' : list trace_item) : bool :=
+(* [intr l]: location l of the INPUT holds an intrinsic *)
+Fixpoint lockstep (intr : floc -> bool) (tr tr' : list trace_item) : bool :=
   match tr with
   | [] => true                                   (* end of the observed prefix of the input's run *)
   | it :: rest =>
       match ti_res it with
-      | Stuck EIntrinsic =>                      (* control presents its state to an intrinsic *)
-          match tr' with
-          | it' :: _ => floc_eqb (ti_loc it) (ti_loc it') &&
-                        env_agree (st_env (ti_before it)) (st_env (ti_before it')) &&
-                        match ti_res it' with Stuck EIntrinsic => true | _ => false end
-          | [] => false
-          end
-      | Stuck _ => true                          (* the input faults: the property is silent *)
+      | Stuck _ =>
+          if intr (ti_loc it) then               (* control presents its state to an intrinsic *)
+            match tr' with
+            | it' :: _ => floc_eqb (ti_loc it) (ti_loc it') &&
+                          env_agree (st_env (ti_before it)) (st_env (ti_before it')) &&
+                          match ti_res it' with Stuck EIntrinsic => true | _ => false end
+            | [] => false
+            end
+          else true                              (* the input faults: the property is silent *)
       | Sem.Next l st ev =>
           match tr' with
           | it' :: rest' =>
               floc_eqb (ti_loc it) (ti_loc it') &&
               match ti_res it' with
-              | Sem.Next l' st' ev' => floc_eqb l l' && same_store ev ev' && lockstep rest rest'
+              | Sem.Next l' st' ev' => floc_eqb l l' && same_store ev ev' && lockstep intr rest rest'
               | _ => false
               end
           | [] => false
@@ -135,9 +137,12 @@ Fixpoint lockstep (tr tr' : list trace_item) : bool :=
       end
   end.
 
+Definition is_intrinsic_at (f : func) (l : floc) : bool :=
+  match loc_instruction f l with Some i => is_intrinsic (i_op i) | None => false end.
+
 Definition runs_equiv (f g : func) (fuel : nat) (st : sstate) : bool :=
   match from_function f, from_function g with
-  | Some (Ok l0), Some (Ok l0') => floc_eqb l0 l0' && lockstep (sem_run fuel f l0 st) (sem_run fuel g l0' st)
+  | Some (Ok l0), Some (Ok l0') => floc_eqb l0 l0' && lockstep (is_intrinsic_at f) (sem_run fuel f l0 st) (sem_run fuel g l0' st)
   | Some (Ok _), _ => false
   | _, _ => true                                 (* no entry: nothing runs *)
   end.
